@@ -76,6 +76,12 @@ def build_settings(mem):
         return phy, geom, timing, mem.get("clk_freq", 100e6), None
 
 
+class PortGeometryMismatch(Exception):
+    def __init__(self, expected_aw, got_aw):
+        Exception.__init__(self, "port address width %d, device needs %d" % (got_aw, expected_aw))
+        self.expected_aw, self.got_aw = expected_aw, got_aw
+
+
 def heavy_gap(rng, scale=1.0):
     x = rng.random()
     if x < 0.55:
@@ -310,7 +316,9 @@ def run_case(cfg, want_fsm=False):
     word_bytes = phy.dfi_databits * nphases // 8
     amap = AddressMap(phy.memtype, nphases, phy.nranks, geom.bankbits, geom.rowbits, geom.colbits, word_bytes,
                       cs.get("bank_byte_alignment", 0))
-    assert amap.aw == dut.ports[0].address_width, (amap.aw, dut.ports[0].address_width)
+    if amap.aw != dut.ports[0].address_width:
+        # the port's address space is not the size of the device (C06 reports it; the other whole-core checks cannot run)
+        raise PortGeometryMismatch(amap.aw, dut.ports[0].address_width)
     rdphase = phy.rdphase if not isinstance(phy.rdphase, Signal) else phy.rdphase.reset.value
     wrphase = phy.wrphase if not isinstance(phy.wrphase, Signal) else phy.wrphase.reset.value
     ref = RefDRAM(dut.dfi, nphases, phy.nranks, geom.bankbits, phy.dfi_databits, phy.read_latency,
